@@ -373,7 +373,8 @@ def run(chk, replay=None):
                             dj = [i for i, e in idx2q.items() if e is not None and e[2].idx == j]
                             if dj and qs[j].kind != 'state' and not X.same(vals[dj[0]], idx2q[dj[0]][0]):
                                 kf = [f for f in known_findings()['findings'] if f.get('id') == 'C20-initialised-from-external']
-                                if init_from_marked and kf and vals[dj[0]] != vals[dj[0]]:
+                                down = any(im.idx == j or im.idx in closure(j) for im in init_from_marked)
+                                if init_from_marked and kf and (vals[dj[0]] != vals[dj[0]] or down):
                                     chk.known_finding(kf[0]['what']); continue
                                 oracle.append(('the callback for v%d is called in %s before its dependency v%d is computed (it reads %r, the model gives %r)' % (q[2].idx, phase, j, vals[dj[0]], idx2q[dj[0]][0]), text, ext))
                 elif t[0] in ('S', 'V'):
